@@ -164,6 +164,9 @@ func hostileChild(args []string) error {
 	if s.Feeder == "distributor" {
 		return hostileDistributor(s, rng, *seed)
 	}
+	if s.Feeder == "storm" {
+		return hostileStorm(s, *seed)
+	}
 	p := world.Params{Logs: []string{"l1"}, MaxSize: 1, NBranch: 1, MaxLines: 6, NWitKeys: 2, Seed: *seed, RunTag: "hostile", Origins: map[string]string{}}
 	if s.Feeder == "sumdb" {
 		p.Origins["l1"] = "go.sum database tree"
@@ -469,6 +472,9 @@ func hostileMain(args []string) error {
 			comp := "feeder/" + s.Feeder
 			if s.Feeder == "distributor" {
 				comp = "distributor"
+			}
+			if s.Feeder == "storm" {
+				comp = "witness/first submissions of many logs at once"
 			}
 			res[i] = cycleEvent{E: "cycle", Run: fmt.Sprintf("h%d", i), K: i, Comp: comp, Wit: s.Wit, CP: s.CP, Data: s.Data, Outcome: outcome,
 				Sig: fmt.Sprintf("%s/%s/%s", s.Feeder, s.CP, outcome), Detail: detail}
